@@ -197,13 +197,14 @@ def difference (a b : Trie) : Trie := removeSame a b
 def intersection (a b : Trie) : Trie := removeDiff a b
 def union (a b : Trie) : Trie := merge a b
 
-/-- `subtree` (761-787), read-only view. -/
-def subtree : Trie → Path → Option Trie
-  | t, [] => some t
-  | .mark, _ :: _ => none
+/-- `subtree` (761-787), read-only view (`none` = the method returns None). With a `'$'` key in
+the path (F19) the walk can hit the marker value `True`: `key not in True` raises TypeError. -/
+def subtree : Trie → Path → Except Err (Option Trie)
+  | t, [] => .ok (some t)
+  | .mark, _ :: _ => .error .type
   | .node kids, k :: ks =>
     match Assoc.lookup kids k with
-    | none => none
+    | none => .ok none
     | some child => subtree child ks
 
 end Trie
